@@ -27,7 +27,8 @@ var operandSets = []operandSet{
 	{"zeroish", []model.Value{model.Int(0), model.Int(1), model.Int(0), model.Int(7)}},
 }
 
-var operandNames = []string{"va", "vb", "vc", "vd"}
+// variable names that only look like keywords: a keyword in another case, or with a keyword as prefix
+var operandNames = []string{"In", "vb", "Nil", "TRUE"}
 
 // operand i of a set in literal (form 0), variable (form 1) or mixed (form 2) form
 func operand(set operandSet, i, form int) model.Expr {
@@ -648,6 +649,22 @@ func boundaryCases() []func(c *core.Ctx) {
 				add(bin("==", bin("+", model.Postfix{Op: "--", X: x}, lit(model.Float(1.0))), x), fd)
 			}
 		}
+	}
+	// a list written one element per line may end in a comma: same tree, same value
+	for _, tc := range []struct{ src, out string }{
+		{"{{ [1, 2,] }}", "1, 2"}, {"{{ [1,].len() }}", "1"}, {"{{ \"abc\".contains(\"b\",) }}", "1"}, {"{{ true.then(\"y\", \"n\",) }}", "y"},
+		{"{{ (1 < 2).then(1 + 2 * 3, 0,) + 1 }}", "8"}, {"{{ \"abc\".contains(\n  \"b\",\n) }}", "1"}, {"{{ [1, 2, 3].slice(\n 1,\n 2,\n).len() }}", "1"},
+		{"{{ {a: 1, b: 2,}.b }}", "2"}, {"{{ {\n a: 1,\n}.a }}", "1"}, {"{{ [[1,], [2, 3,],][1][1] }}", "3"}, {"{{ \"x\".repeat(2,) + \"y\".repeat(\n1\n,\n) }}", "xxy"},
+	} {
+		tc := tc
+		out = append(out, func(c *core.Ctx) {
+			c.Input(tc.src)
+			got := evalString(c, tc.src, nil)
+			c.Nontrivial(tc.src)
+			if !got.Panicked && (got.Err != nil || got.Out != tc.out) {
+				c.Violation("boundary:trailing-comma", fmt.Sprintf("%s gave %s, want %q", tc.src, got.Describe(), tc.out), map[string]any{"source": tc.src})
+			}
+		})
 	}
 	// integer literals at and beyond the 64-bit range: source written by hand
 	for _, src := range []struct {
